@@ -180,7 +180,7 @@ static void checkC13(Ctx& c, long idx, Rng& r) {
 
 // ------------------------------------------------------------------------------------
 // C12: power vs potential energy
-struct PowerOut { double P = 0, dPE = 0, dPEh = 0, scale = 0, peMag = 0, reported = NaN, h = 1e-3, fmax = 0; bool ok = true; std::string why; };
+struct PowerOut { double P = 0, dPE = 0, dPEh = 0, scale = 0, peMag = 0, reported = NaN, h = 1e-3, fmax = 0; bool ok = true, yank = false; std::string why; };
 
 // Power delivered and d(PE)/dt along q(t) = q + t*N*u for the speeds currently in s.
 static PowerOut powerAt(Ctx& c, FCase& k, State& s) {
@@ -201,6 +201,7 @@ static PowerOut powerAt(Ctx& c, FCase& k, State& s) {
     po.scale += (aF + aM) * vmax;
     if (haveRef) po.scale += ref.scale * vmax;   // incl. the floors from magnitudes before cancellation (same body twice)
     po.reported = e.reportedDissipation(k, s);
+    po.yank = e.documentedYankOut && e.yankOutPresent(k, s);
     if (!std::isfinite(po.P)) { po.ok = false; po.why = "nonfinite-power"; return po; }
     if (!e.reportsPE) return po;
     Vector q0 = s.getQ(), qdot; k.m.matter.multiplyByN(s, false, u, qdot);
@@ -241,11 +242,12 @@ static void checkC12(Ctx& c, long idx, Rng& r) {
         // form (unit speed on one mobility).
         const char* form = dirIx < 0 ? "power form" : "gradient form";
         if (std::isfinite(po.reported)) {
-            if (e.documentedYankOut && po.fmax == 0 && po.reported == 0) {
-                // documented exception (CompliantContactSubsystem::getDissipatedEnergy): a body "yanked" out of a
-                // contact gets no force and the elastic energy it leaves behind is not tracked
+            if (po.yank) {
+                // documented exception: energy lost by yanked contact elements is not reported; the reported
+                // dissipation is then only a lower bound of the actual one
                 c.obs("yank-out:" + en);
-                c.check("energy-" + en + ":sign", D, tol, W("force clamped to zero while the potential energy grows"));
+                c.check("energy-" + en + ":sign", D, tol, W("P + dPE/dt > 0 while contact elements are being yanked apart"));
+                c.check("energy-" + en + ":sign", D + po.reported, tol, W("reported power dissipation exceeds the actual one (yank-out)"));
             } else
                 c.check("energy-" + en + ":balance", std::fabs(D + po.reported), tol, W(dirIx < 0 ? "P + dPE/dt != -(reported power dissipation)" : "generalized force != -dPE/dq*N - reported dissipation"));
             c.check("energy-" + en + ":sign", -po.reported, tol, W("reported power dissipation negative"));
